@@ -180,7 +180,7 @@ fn main() {
     if ctx.enabled(mname) {
         let mon = Monitor::new(
             mname,
-            "Delta E, improved Delta E (1.26 dE^0.55), HyAB and Euclidean distance for Lab, Lch, Luv, Oklab, Xyz, Rgb, Cam16UcsJab, Cam16UcsJmh (f32/f64) against their closed forms; polar forms against rectangular ones; symmetry, identity, non-negativity and finiteness, including nearly identical saturated pairs; distinct = (measure, type, pair family)",
+            "Delta E, improved Delta E (1.26 dE^0.55), HyAB and Euclidean distance for Lab, Lch, Luv (two white points), Oklab, Xyz, Yxy, Lms, Luma, Rgb, Cam16UcsJab, Cam16UcsJmh (f32/f64) against their closed forms; polar forms against rectangular ones; symmetry, identity, non-negativity and finiteness, including nearly identical saturated pairs; distinct = (measure, type, pair family)",
         );
         let replay = ctx.replay_input(mname, "triples");
         let res = par(if ctx.replaying() { 1 } else { ctx.threads }, |t| {
@@ -259,6 +259,23 @@ fn main() {
                 rect!("Xyz/f64", xa, xb, 1e-12);
                 let (ra, rb) = (LinSrgb::<f64>::new(a[0], a[1], a[2]), LinSrgb::<f64>::new(b[0], b[1], b[2]));
                 rect!("Rgb/f64", ra, rb, 1e-12);
+                {
+                    // the remaining impl_euclidean_distance! invocations: Yxy, Lms, Luv with another white point, f32 Lms;
+                    // single-channel luma has a one-component distance of its own
+                    let (ya, yb) = (palette::Yxy::<D65, f64>::new(a[0], a[1], a[2]), palette::Yxy::<D65, f64>::new(b[0], b[1], b[2]));
+                    rect!("Yxy/f64", ya, yb, 1e-12);
+                    let (ma, mb) = (palette::lms::VonKriesLms::<D65, f64>::new(a[0], a[1], a[2]), palette::lms::VonKriesLms::<D65, f64>::new(b[0], b[1], b[2]));
+                    rect!("Lms/f64", ma, mb, 1e-12);
+                    let (ua5, ub5) = (Luv::<palette::white_point::D50, f64>::new(a[0], a[1], a[2]), Luv::<palette::white_point::D50, f64>::new(b[0], b[1], b[2]));
+                    rect!("Luv<D50>/f64", ua5, ub5, 1e-12, hyab);
+                    let (l1, l2) = (palette::SrgbLuma::<f64>::new(a[0]), palette::SrgbLuma::<f64>::new(b[0]));
+                    let (d, dr, d2) = (l1.distance(l2), l2.distance(l1), l1.distance_squared(l2));
+                    m.evals(3);
+                    let want = (a[0] - b[0]).abs();
+                    if !((d - want).abs() <= 1e-12 * (1.0 + want)) || d != dr || !((d2 - want * want).abs() <= 1e-12 * (1.0 + want * want)) || l1.distance(l1) != 0.0 {
+                        m.violate("Luma/f64", "euclidean_distance", inp(), json!({"d": fjson(d), "d2": fjson(d2), "ba": fjson(dr)}), fjson(want), "");
+                    }
+                }
                 // polar forms: same colours expressed in polar coordinates. Cancellation in a polar formula shows
                 // for nearly identical saturated colours, so the bound is absolute in the rectangular dE.
                 let (ca, cb) = (Lch::from_color_unclamped(la), Lch::from_color_unclamped(lb));
@@ -340,7 +357,7 @@ fn main() {
     if ctx.enabled(mname) {
         let mon = Monitor::new(
             mname,
-            "WCAG 2.1 relative contrast for Srgb / LinSrgb / Luma (f32/f64; trait Wcag21RelativeContrast and the deprecated RelativeContrast): equals (L1+0.05)/(L2+0.05) of the linear luminances, symmetric, within [1, 21] for in-gamut colours, threshold predicates agree with the ratio (points straddling 3, 4.5 and 7, and all pairs of linear luma on the 1/1000 grid, which contain ratios exactly on a threshold); distinct = (type, ratio bucket)",
+            "WCAG 2.1 relative contrast for Srgb / LinSrgb / Luma (f32/f64; trait Wcag21RelativeContrast and the deprecated RelativeContrast) and the deprecated RelativeContrast of Lab, Lch, Luv, Lchuv, Xyz, Yxy, Hsl, Hsv, Hwb, Hsluv, Oklab, Oklch, Okhsl, Okhwb on the same colours: equals (L1+0.05)/(L2+0.05) of the linear luminances, symmetric, within [1, 21] for in-gamut colours, threshold predicates agree with the ratio (points straddling 3, 4.5 and 7, and all pairs of linear luma on the 1/1000 grid, which contain ratios exactly on a threshold); distinct = (type, ratio bucket)",
         );
         let replay = ctx.replay_input(mname, "Srgb");
         let res = par(if ctx.replaying() { 1 } else { ctx.threads }, |t| {
@@ -425,6 +442,50 @@ fn main() {
                 m.evals(2);
                 if !((r32 as f64 - want).abs() <= 2e-5 * want) || r32.to_bits() != fb.relative_contrast(fa).to_bits() || fa.has_min_contrast_text(fb) != (r32 >= 4.5) {
                     m.violate("Srgb/f32", "contrast_f32", inp(), fjson(r32 as f64), fjson(want), "");
+                }
+                // the deprecated RelativeContrast exists for many more types (through their Xyz luminance): same ratio, symmetric,
+                // within [1, 21], predicates agree with the type's own ratio
+                if q % 4 == 0 {
+                    macro_rules! old_api {
+                        ($name:expr, $C:ty, $F:ty, $tol:expr) => {{
+                            let (ca, cb): ($C, $C) = (<$C>::from_color_unclamped(Srgb::<$F>::new(a[0] as $F, a[1] as $F, a[2] as $F)), <$C>::from_color_unclamped(Srgb::<$F>::new(b[0] as $F, b[1] as $F, b[2] as $F)));
+                            let ro = palette::RelativeContrast::get_contrast_ratio(ca, cb);
+                            let rb = palette::RelativeContrast::get_contrast_ratio(cb, ca);
+                            let ps = [
+                                (palette::RelativeContrast::has_min_contrast_text(ca, cb), 4.5),
+                                (palette::RelativeContrast::has_min_contrast_large_text(ca, cb), 3.0),
+                                (palette::RelativeContrast::has_enhanced_contrast_text(ca, cb), 7.0),
+                                (palette::RelativeContrast::has_enhanced_contrast_large_text(ca, cb), 4.5),
+                                (palette::RelativeContrast::has_min_contrast_graphics(ca, cb), 3.0),
+                            ];
+                            m.evals(3);
+                            // near black the luminance of a colour that went through a cylindrical / CIE type carries that type's own
+                            // absolute rounding: compare the ratio through (L + 0.05), which is what it is made of
+                            let t = $tol * want + $tol * 21.0 * want;
+                            if !(((ro as f64) - want).abs() <= t) || ro.to_bits() != rb.to_bits() || !((ro as f64) >= 1.0 - 1e-6 && (ro as f64) <= 21.0 * (1.0 + $tol)) || ps.iter().any(|(p, k)| *p != (ro >= *k as $F)) {
+                                m.violate($name, "deprecated_relative_contrast", inp(), json!({"ab": ro as f64, "ba": rb as f64, "predicates": ps.iter().map(|p| p.0).collect::<Vec<_>>()}), fjson(want), "");
+                            }
+                        }};
+                    }
+                    use palette::white_point::D65 as W;
+                    use palette::encoding::Srgb as S;
+                    old_api!("Lab/f64", palette::Lab<W, f64>, f64, 1e-6);
+                    old_api!("Lch/f64", palette::Lch<W, f64>, f64, 1e-6);
+                    old_api!("Luv/f64", palette::Luv<W, f64>, f64, 1e-6);
+                    old_api!("Lchuv/f64", palette::Lchuv<W, f64>, f64, 1e-6);
+                    old_api!("Xyz/f64", palette::Xyz<W, f64>, f64, 1e-6);
+                    old_api!("Yxy/f64", palette::Yxy<W, f64>, f64, 1e-6);
+                    old_api!("Hsl/f64", palette::Hsl<S, f64>, f64, 1e-6);
+                    old_api!("Hsv/f64", palette::Hsv<S, f64>, f64, 1e-6);
+                    old_api!("Hwb/f64", palette::Hwb<S, f64>, f64, 1e-6);
+                    old_api!("Hsluv/f64", palette::Hsluv<W, f64>, f64, 1e-6);
+                    old_api!("Oklab/f64", palette::Oklab<f64>, f64, 1e-4);
+                    old_api!("Oklch/f64", palette::Oklch<f64>, f64, 1e-4);
+                    old_api!("Okhsl/f64", palette::Okhsl<f64>, f64, 1e-4);
+                    old_api!("Okhwb/f64", palette::Okhwb<f64>, f64, 1e-4);
+                    old_api!("Lab/f32", palette::Lab<W, f32>, f32, 2e-4);
+                    old_api!("Hsv/f32", palette::Hsv<S, f32>, f32, 2e-4);
+                    old_api!("Lchuv/f32", palette::Lchuv<W, f32>, f32, 2e-4);
                 }
                 // Rgb -> Luma encodes and decodes the luminance: at the sRGB knee the two published constants leave a step < 1e-6
                 if !((rl - r).abs() <= 1e-6 * r) {
